@@ -70,7 +70,7 @@ NA = {
 }
 
 
-FORKED = {"C01", "C03", "C04", "C05", "C06", "C07", "C09", "C10", "C11", "C13", "C16", "C19"}
+FORKED = {"C01", "C02", "C18", "C03", "C04", "C05", "C06", "C07", "C09", "C10", "C11", "C13", "C16", "C19"}
 GENERIC = {"*": " Process-level faults injected in a fraction of the runs (DESIGN.md 9.10): a fleet of bystander instances of the same classes stepped between "
                 "the calls of the run under test (1 run in 4)."}
 for _p in FORKED:
